@@ -122,7 +122,7 @@ Proof. intros H. rewrite nth_error_map, H. reflexivity. Qed.
 Section SIM.
 Variable rho : renaming.
 Variable X X' : xprogram.
-Hypothesis HR : is_renaming rho X X' = true.
+Hypothesis HR : struct_ok rho X X' = true.
 
 Let P := project X.
 Let P' := project X'.
@@ -139,18 +139,12 @@ Record facts : Prop := {
   F_builtin : forall b b', app (r_b rho) b = Some b' -> chk_builtin rho X X' b b' = true;
   F_res : forall r r', app (r_r rho) r = Some r' -> chk_res X X' r r' = true;
   F_inj_f : forall f f', app (r_f rho) f = Some f' -> app (i_f rho) f' = Some f;
-  F_inj_b : forall b b', app (r_b rho) b = Some b' -> app (i_b rho) b' = Some b;
-  F_row : forall y y', app (r_y rho) y = Some y' -> chk_row rho X X' y y' = true;
-  F_canon : canon_ok X = true;
-  F_canon' : canon_ok X' = true
+  F_inj_b : forall b b', app (r_b rho) b = Some b' -> app (i_b rho) b' = Some b
 }.
 
 Lemma the_facts : facts.
 Proof.
-  pose proof HR as H. unfold is_renaming in H.
-  apply andb_true_iff in H as [H Hcanon'].
-  apply andb_true_iff in H as [H Hcanon].
-  apply andb_true_iff in H as [H Hrow].
+  pose proof HR as H. unfold struct_ok in H.
   apply andb_true_iff in H as [H Hinjb].
   apply andb_true_iff in H as [H Hinjf].
   apply andb_true_iff in H as [H Hres].
@@ -175,7 +169,6 @@ Proof.
   - apply forall_map_spec; assumption.
   - intros f f' E. apply maps_to_spec. exact (forall_map_spec _ _ Hinjf _ _ E).
   - intros b b' E. apply maps_to_spec. exact (forall_map_spec _ _ Hinjb _ _ E).
-  - apply forall_map_spec; assumption.
 Qed.
 
 Let FX := the_facts.
@@ -186,25 +179,24 @@ Proof. intros A B. apply (F_inj_f FX) in A. apply (F_inj_f FX) in B. congruence.
 Lemma inj_b f g f' : app (r_b rho) f = Some f' -> app (r_b rho) g = Some f' -> f = g.
 Proof. intros A B. apply (F_inj_b FX) in A. apply (F_inj_b FX) in B. congruence. Qed.
 
-(* what instr_ok says, per instruction *)
-Lemma instr_ok_inv i i' : instr_ok rho X i i' = true ->
+(* what instr_img says, per instruction *)
+Lemma instr_ok_inv i i' : instr_img rho i i' = true ->
   match i with
   | IConstant k => exists k', app (r_c rho) k = Some k' /\ i' = IConstant k'
   | ITuple t => exists t', app (r_t rho) t = Some t' /\ i' = ITuple t'
-  | IIsType y => exists y', app (r_y rho) y = Some y' /\ i' = IIsType y' /\ exists w, row_of X y = Some w
+  | IIsType y => exists y', app (r_y rho) y = Some y' /\ i' = IIsType y' /\ True
   | IFunction f => exists f', app (r_f rho) f = Some f' /\ i' = IFunction f'
   | IBuiltin b => exists b', app (r_b rho) b = Some b' /\ i' = IBuiltin b'
   | IProcess pid f => exists f', app (r_f rho) f = Some f' /\ i' = IProcess pid f'
   | other => i' = other
   end.
 Proof.
-  unfold instr_ok. intros H. apply andb_true_iff in H. destruct H as [H1 H2].
+  unfold instr_img. intros H1.
   destruct (ren_instr rho i) as [j|] eqn:E; [|discriminate]. apply instr_eqb_eq in H1. subst j.
   destruct i; cbn [ren_instr] in E; try (inv E; reflexivity).
   - destruct (app (r_c rho) k) as [k'|]; inv E. eauto.
   - destruct (app (r_t rho) t) as [k'|]; inv E. eauto.
   - destruct (app (r_y rho) t) as [k'|]; inv E. exists k'. repeat split.
-    destruct (row_of X t) as [w|]; [eauto | discriminate].
   - destruct (app (r_f rho) f) as [k'|]; inv E. eauto.
   - destruct (app (r_b rho) b) as [k'|]; inv E. eauto.
   - destruct (app (r_f rho) f) as [k'|]; inv E. eauto.
@@ -213,7 +205,7 @@ Qed.
 Lemma fun_facts f f' : app (r_f rho) f = Some f' ->
   exists fd fd', nth_error (x_funcs X) f = Some fd /\ nth_error (x_funcs X') f' = Some fd' /\
                  xf_caps fd = xf_caps fd' /\
-                 Forall2 (fun i j => instr_ok rho X i j = true) (xf_code fd) (xf_code fd').
+                 Forall2 (fun i j => instr_img rho i j = true) (xf_code fd) (xf_code fd').
 Proof.
   intros E. pose proof (F_fun FX _ _ E) as H. unfold chk_fun in H.
   destruct (nth_error (x_funcs X) f) as [fd|]; [|discriminate].
@@ -346,7 +338,7 @@ Qed.
 
 Lemma code_rel f f' : app (r_f rho) f = Some f' ->
   exists code code', code_of P f = Some code /\ code_of P' f' = Some code' /\
-                     Forall2 (fun i j => instr_ok rho X i j = true) code code'.
+                     Forall2 (fun i j => instr_img rho i j = true) code code'.
 Proof.
   intros E. destruct (fun_facts _ _ E) as (fd & fd' & A & B & _ & D).
   exists (xf_code fd), (xf_code fd'). unfold code_of, P, P', project; cbn [p_funcs].
@@ -544,6 +536,26 @@ Qed.
 
 (* ------------------------------------------------------------------ the verdicts agree *)
 
+(* from here on: the run-time tables of both programs (what each loader computes) *)
+Hypothesis HRows : rows_ok rho X X' = true.
+Hypothesis HCX : canon_ok X = true.
+Hypothesis HCX' : canon_ok X' = true.
+
+Lemma row_fact y y' : app (r_y rho) y = Some y' -> chk_row rho X X' y y' = true.
+Proof.
+  unfold rows_ok in HRows. apply andb_true_iff in HRows as [_ H]. apply forall_map_spec. exact H.
+Qed.
+
+(* a tested type of a mapped function has its row dumped *)
+Lemma tested_row f f' fd y : app (r_f rho) f = Some f' -> nth_error (x_funcs X) f = Some fd ->
+  In (IIsType y) (xf_code fd) -> exists w, row_of X y = Some w.
+Proof.
+  intros Hf Hfd Hin. unfold rows_ok in HRows. apply andb_true_iff in HRows as [H _].
+  pose proof (forall_map_spec _ _ H _ _ Hf) as G. cbn beta in G. unfold rows_dumped in G. rewrite Hfd in G.
+  rewrite forallb_forall in G. specialize (G _ Hin). cbn [row_dumped] in G.
+  destruct (row_of X y) as [w|]; [eauto | discriminate].
+Qed.
+
 Lemma commute_spec m l l' i j : commute m l l' = true -> app m i = Some j -> nthb l i = nthb l' j.
 Proof. intros H E. apply Bool.eqb_prop. exact (forall_map_spec _ _ H _ _ E). Qed.
 
@@ -559,7 +571,7 @@ Lemma istype_agree v v' y y' w : vrel v v' -> app (r_y rho) y = Some y' -> row_o
   tag_typed X v ->
   istype_verdict X v y = istype_verdict X' v' y'.
 Proof.
-  intros Hv Hy Hw Ht. pose proof (F_row FX _ _ Hy) as H. unfold chk_row in H. rewrite Hw in H.
+  intros Hv Hy Hw Ht. pose proof (row_fact _ _ Hy) as H. unfold chk_row in H. rewrite Hw in H.
   unfold istype_verdict. rewrite Hw. destruct (row_of X' y') as [w'|]; [|discriminate].
   unfold rows_commute in H.
   apply andb_true_iff in H as [H Hres]. apply andb_true_iff in H as [H Hprocs].
@@ -610,7 +622,7 @@ Proof.
   destruct (tuple_facts _ _ E1) as (a1 & a1' & A1 & B1 & N1 & L1 & _).
   destruct (tuple_facts _ _ E2) as (a2 & a2' & A2 & B2 & N2 & L2 & _).
   apply eqb_iff.
-  rewrite (canon_shape X (F_canon FX) _ _ _ _ A1 A2), (canon_shape X' (F_canon' FX) _ _ _ _ B1 B2).
+  rewrite (canon_shape X HCX _ _ _ _ A1 A2), (canon_shape X' HCX' _ _ _ _ B1 B2).
   rewrite N1, N2, L1, L2. reflexivity.
 Qed.
 
@@ -693,7 +705,7 @@ Qed.
 
 Lemma top_instr_rel s s' : srel s s' ->
   match top_instr (project X) s, top_instr (project X') s' with
-  | Some i, Some i' => instr_ok rho X i i' = true
+  | Some i, Some i' => instr_img rho i i' = true
   | None, None => True
   | _, _ => False
   end.
@@ -704,18 +716,28 @@ Proof.
   fold P. fold P'. rewrite Hc, Hc', <- Hpc. apply Forall2_nth. exact Hcode.
 Qed.
 
+Lemma top_row s s' y : srel s s' -> top_instr (project X) s = Some (IIsType y) -> exists w, row_of X y = Some w.
+Proof.
+  intros [_ _ Hfr _]. unfold top_instr. inversion Hfr as [|fr fr' rest rest' Hf Hrest E1 E2]; [discriminate|].
+  destruct Hf as (Hfn & _).
+  destruct (fun_facts _ _ Hfn) as (fd & fd' & A & _).
+  unfold code_of, project; cbn [p_funcs]. rewrite (nth_error_map_some erase_func _ _ _ A). cbn [option_map erase_func f_code].
+  intros E. eapply tested_row; eauto. eapply nth_error_In; eauto.
+Qed.
+
 Lemma decide_rel beq s s' x x' : srel s s' -> orel (x_value x) (x_value x') -> tested_typed X s ->
   xrel (decide X beq s x) (decide X' beq s' x').
 Proof.
-  intros HS Hxv HT. pose proof (top_instr_rel _ _ HS) as Hi. unfold decide. unfold tested_typed in HT.
-  destruct (top_instr (project X) s) as [i|], (top_instr (project X') s') as [i'|]; try contradiction.
+  intros HS Hxv HT. pose proof (top_instr_rel _ _ HS) as Hi. pose proof (top_row s s') as Hrow.
+  unfold decide. unfold tested_typed in HT.
+  destruct (top_instr (project X) s) as [i|] eqn:Et, (top_instr (project X') s') as [i'|]; try contradiction.
   2: { split; [exact Hxv | reflexivity]. }
-  apply instr_ok_inv in Hi. destruct HS as [Hst _ _ _].
+  apply instr_ok_inv in Hi. pose proof HS as [Hst _ _ _].
   destruct i; cbv beta iota in Hi;
     try solve [subst i'; split; [exact Hxv | reflexivity]];
     try solve [destruct Hi as (? & ? & ->); split; [exact Hxv | reflexivity]].
   - (* IsType *)
-    destruct Hi as (y' & Hy & -> & w & Hw).
+    destruct Hi as (y' & Hy & -> & _). destruct (Hrow _ HS eq_refl) as [w Hw].
     inversion Hst as [|v v' sp sq Hv Hsp E1 E2]; [split; [exact Hxv | reflexivity]|].
     rewrite <- E1 in HT.
     split; [exact Hxv|]. cbn [x_bool]. eapply istype_agree; eauto.
@@ -773,7 +795,7 @@ Lemma refers_mapped f g : (exists f', app (r_f rho) f = Some f') -> refers f g -
 Proof.
   intros [f' Hf] (fd & Hfd & Hin). destruct (fun_facts _ _ Hf) as (fd0 & fd' & A & _ & _ & Hcode).
   rewrite Hfd in A. inv A.
-  assert (G : forall i, In i (xf_code fd0) -> exists j, instr_ok rho X i j = true).
+  assert (G : forall i, In i (xf_code fd0) -> exists j, instr_img rho i j = true).
   { clear -Hcode. induction Hcode as [|a b l l' Hab _ IH]; intros i Hi; [destruct Hi | destruct Hi as [->|Hi]; eauto]. }
   destruct Hin as [Hin|[pid Hin]]; destruct (G _ Hin) as [j Hj]; apply instr_ok_inv in Hj; cbv beta iota in Hj;
     destruct Hj as (g' & Hg & _); eauto.
@@ -785,6 +807,13 @@ Proof. induction 1 as [f|f g h Hfg IH Hgh]; intros Hm; [exact Hm | apply (refers
 End SIM.
 
 (* ------------------------------------------------------------------ the theorems of C10 *)
+
+(* is_renaming = structure (what the packaging step produces) + run-time tables (what loaders compute) *)
+Lemma is_renaming_split rho X X' : is_renaming rho X X' = true <->
+  struct_ok rho X X' = true /\ rows_ok rho X X' = true /\ canon_ok X = true /\ canon_ok X' = true.
+Proof.
+  unfold is_renaming. rewrite !andb_true_iff. tauto.
+Qed.
 
 (* Running any mapped function (in particular every function reachable from the entry, see
    `renaming_covers_reachable`) on related arguments, with related outside inputs, gives related
@@ -799,16 +828,23 @@ Theorem renaming_simulation rho X X' : is_renaming rho X X' = true ->
            (xrun X' bin_eq (init_state f' caps' arg' pers) xs').
 Proof.
   intros HR beq f f' caps caps' arg arg' pers xs xs' Hf Hc Ha Hx HT.
-  apply (xrun_sim rho X X' HR beq xs xs' Hx); [apply init_rel; assumption | exact HT].
+  apply is_renaming_split in HR. destruct HR as (HS & HRo & HC & HC').
+  apply (xrun_sim rho X X' HS HRo HC HC' beq xs xs' Hx); [apply init_rel; assumption | exact HT].
 Qed.
 
-(* the same with every verdict an outside input (vm/Vm.v as it stands, vm/WfRun.v's `run`) *)
+(* the same with every verdict an outside input (vm/Vm.v as it stands, vm/WfRun.v's `run`): the
+   STRUCTURAL part of the validator suffices *)
+Theorem struct_simulation_ext rho X X' : struct_ok rho X X' = true ->
+  forall s s' xs xs', srel rho s s' -> Forall2 (xrel rho) xs xs' ->
+  rrel rho (run (project X) s xs) (run (project X') s' xs').
+Proof. intros HS s s' xs xs' Hs Hx. apply (run_sim rho X X' HS xs xs' Hx). exact Hs. Qed.
+
 Theorem renaming_simulation_ext rho X X' : is_renaming rho X X' = true ->
   forall s s' xs xs', srel rho s s' -> Forall2 (xrel rho) xs xs' ->
   rrel rho (run (project X) s xs) (run (project X') s' xs').
-Proof. intros HR s s' xs xs' HS Hx. apply (run_sim rho X X' HR xs xs' Hx). exact HS. Qed.
+Proof. intros HR. apply is_renaming_split in HR. apply struct_simulation_ext. apply HR. Qed.
 
-Theorem renaming_covers_reachable rho X X' : is_renaming rho X X' = true ->
+Theorem struct_covers_reachable rho X X' : struct_ok rho X X' = true ->
   app (r_f rho) (x_entry X) = Some (x_entry X') /\
   forall f, reachable X (x_entry X) f -> exists f', app (r_f rho) f = Some f'.
 Proof.
@@ -816,15 +852,20 @@ Proof.
   intros f Hf. eapply (reachable_mapped rho X X' HR); eauto. exists (x_entry X'). exact (F_entry _ _ _ FX).
 Qed.
 
+Theorem renaming_covers_reachable rho X X' : is_renaming rho X X' = true ->
+  app (r_f rho) (x_entry X) = Some (x_entry X') /\
+  forall f, reachable X (x_entry X) f -> exists f', app (r_f rho) f = Some f'.
+Proof. intros HR. apply is_renaming_split in HR. apply struct_covers_reachable. apply HR. Qed.
+
 (* the side condition, stated on its own: on related values the real tables give the same verdicts *)
 Theorem verdicts_commute rho X X' : is_renaming rho X X' = true ->
   (forall v v' y y' w, vrel rho v v' -> app (r_y rho) y = Some y' -> row_of X y = Some w -> tag_typed X v ->
      istype_verdict X v y = istype_verdict X' v' y') /\
   (forall bin_eq vs vs', Forall2 (vrel rho) vs vs' -> equal_verdict X bin_eq vs = equal_verdict X' bin_eq vs').
 Proof.
-  intros HR. split.
-  - intros. eapply (istype_agree rho X X' HR); eauto.
-  - intros. apply (equal_agree rho X X' HR). assumption.
+  intros HR. apply is_renaming_split in HR. destruct HR as (HS & HRo & HC & HC'). split.
+  - intros. eapply (istype_agree rho X X' HRo); eauto.
+  - intros. apply (equal_agree rho X X' HS HC HC'). assumption.
 Qed.
 
 (* ------------------------------------------------------------------ re-emission of values (imports) *)
